@@ -35,6 +35,7 @@ func vfPatURL(ps []vfPat) string {
 
 func TestVerifC14(t *testing.T) {
 	r := rep.New("C14")
+	reask := &vfReask{}
 	r.Rule("status codes: case = (asset, pattern set, cfg{mode,start,snr}, representation, consecutive live indices over >= 6 cycles); class = (asset, cycle, segments-per-cycle shape, rep kind, mode, start>0, snr>0, " +
 		"expected hit/normal); traffic: case = (pattern list, BaseURL, second); class = (pattern shape, state); counted per compared response")
 	r.Assume("a representation matches a pattern when the pattern has no rep filter or the filter is a substring of the representation id (the documented matching)")
@@ -157,6 +158,7 @@ func TestVerifC14(t *testing.T) {
 						}
 						full := vfURL(cfgURL, w.Ref.Path, u, nowMS)
 						resp := vfGet(w.Srv, full)
+						reask.add(w.Srv, full, resp)
 						r.Eval(1)
 						exp := 200
 						if want != 0 {
@@ -201,6 +203,7 @@ func TestVerifC14(t *testing.T) {
 		}
 	}
 	vfC14Traffic(t, r, worlds[0], &caseNo)
+	vfReaskAtOnce(r, reask, "segments-under-status-code-patterns")
 	if r.NViolations() > 0 {
 		t.Fail()
 	}
